@@ -121,6 +121,14 @@ def check(an: Analysis) -> None:
                 ob.fail(gen, guards[0], "items are filtered / conditionally dropped inside the stream wrapper")
         if lp.orelse:
             ob.fail(gen, lp, "extra behaviour after exhaustion of the source")
+    allowed = {"for-iter", "with-enter", "with-exit", "yield", "reraise"}
+    for n in g.nodes:
+        if n.raises and n.kind not in allowed:
+            if n.kind == "call" and loops and n.ast is unwrap(loops[0].iter):
+                continue
+            if n.kind == "stmt" and isinstance(n.ast, (ast.Assign, ast.AnnAssign)):
+                continue
+            ob.fail(gen, n.ast or n.stmt, "an extra raising operation inside the stream wrapper can end the stream with an outcome that is not the generator's own (items / end / exception must be exactly the source's)")
     hs = [h for h in gen.own_nodes() if isinstance(h, ast.ExceptHandler)]
     for h in hs:
         ob.fail(gen, h, "the wrapper intercepts the source's exception: the consumer must see the generator's own error")
@@ -143,6 +151,9 @@ def check(an: Analysis) -> None:
     body = [s for s in gen.node.body if not (isinstance(s, ast.Expr) and isinstance(s.value, ast.Constant))]
     if len(body) != 1 or not withs or body[0] is not withs[0]:
         ob.fail(gen, body[0] if body else None, "the generator does work outside its scope")
+
+    # ------------------------------------------------------------------ C11.6-8 leaving the stream's scope (end, error, cancellation, aclose) restores the consumer's variables
+    _borrowed(an)
 
     # ------------------------------------------------------------------ C11.5 snapshot and scope prepared at creation time
     ob = an.ob("C11.5", "K5", "ctx.stream takes copy_context() and builds the nested scope (named after the source) when called - before returning the iterator - and returns the wrapper", [STREAM])
@@ -168,6 +179,13 @@ def check(an: Analysis) -> None:
             ob.fail(stream, r, "ctx.stream does not return the wrapping generator")
     if not rets:
         ob.fail(stream, None, "ctx.stream returns nothing")
+
+
+def _borrowed(an: Analysis) -> None:
+    from ..engine import borrow
+    from . import c02
+
+    borrow(an, c02.check, {"C02.3": "C11.6", "C02.7": "C11.7", "C02.1": "C11.8"})
 
 
 def _anc(n: ast.AST):
